@@ -61,7 +61,8 @@ class WriteSame16(SCSICommand):
             raise SCSICommand.MissingBlocksizeException
 
         SCSICommand.__init__(self, opcode, 0 if ndob else blocksize, 0)
-        self.dataout = None if ndob else data
+        if not ndob:
+            self.dataout = data
         self.cdb = self.build_cdb(
             opcode=self.opcode.value,
             lba=lba,
